@@ -162,11 +162,13 @@ class ExprMixin:
             return [(st, self.wrap_real(self.spec_consts[e.id]))]
         if e.id in self.ghost_consts:
             return [(st, self.ghost_consts[e.id])]
+        if e.id in st.ghost:
+            return [(st, st.ghost[e.id])]
         if e.id in self.extra_builtins:
             return [(st, BuiltinRef("x." + e.id))]
         if e.id in ("old", "entry", "implies", "isint", "fresh", "hashkey",
                     "same_shape", "is_none", "seq_len", "seq_at", "unchanged",
-                    "classname", "ite", "seq_eq", "hash_elems", "assume", "use_lemma", "intstr"):
+                    "classname", "ite", "seq_eq", "hash_elems", "assume", "use_lemma", "intstr", "local"):
             return [(st, BuiltinRef("spec." + e.id))]
         return [(st, self.lookup_global(e.id, env.get("__module__")))]
 
@@ -328,15 +330,40 @@ class ExprMixin:
             return za / zb_
         if isinstance(op, ast.FloorDiv):
             self.need_nonzero(b, st, node)
+            if is_z3(b) and not z3.is_int_value(simp(b) if is_z3(simp(b)) else zn(0)) \
+                    and not z3.is_rational_value(b):
+                return self.sym_divmod(a, b, st)[0]
             return py_floordiv(a, b)
         if isinstance(op, ast.Mod):
             self.need_nonzero(b, st, node)
+            if is_z3(b) and not z3.is_int_value(b) and not z3.is_rational_value(b):
+                return self.sym_divmod(a, b, st)[1]
             return py_mod(a, b)
         if isinstance(op, ast.Pow):
             if conc:
                 return a ** b
             raise OutOfReach("symbolic power")
         raise OutOfReach("binary op %s" % type(op).__name__)
+
+    def sym_divmod(self, a, b, st):
+        """divmod by a SYMBOLIC divisor: q, r are fresh with the defining facts
+        a == q*b + r, (b > 0 -> 0 <= r < b), (b < 0 -> b < r <= 0); q integral."""
+        za, zb_ = coerce2(a, b)
+        self.fresh_n += 1
+        qi = z3.Int("q!%d" % self.fresh_n)
+        if z3.is_real(za):
+            q = z3.ToReal(qi)
+            whole = simp(z3.IsInt(za)) is True and simp(z3.IsInt(zb_)) is True
+            # an integral dividend and divisor leave an integral remainder
+            r = z3.ToReal(z3.Int("r!%d" % self.fresh_n)) if whole \
+                else z3.Real("r!%d" % self.fresh_n)
+        else:
+            q = qi
+            r = z3.Int("r!%d" % self.fresh_n)
+        st.assume(za == q * zb_ + r)
+        st.assume(z3.Implies(zb_ > 0, z3.And(r >= 0, r < zb_)))
+        st.assume(z3.Implies(zb_ < 0, z3.And(r <= 0, r > zb_)))
+        return (q, r)
 
     def need_nonzero(self, b, st, node):
         if not is_z3(b):
